@@ -4,7 +4,7 @@
    re-extracts the same table from asmjit/core/codewriter.cpp on every run into coq/gen/C17Layouts.v, where it must be
    equal to this one (C17_layouts_current).  No proofs in this file. *)
 From Coq Require Import ZArith List Bool.
-From Verif Require Import Codec.OffsetModel.
+From Verif Require Import Codec.OffsetModel Codec.ImmModel.
 Import ListNotations.
 Local Open Scope Z_scope.
 
@@ -69,3 +69,82 @@ Fixpoint layout_of (t : otype) (l : list (otype * layout)) : option layout :=
                         | A64_ADR, A64_ADR | A64_ADRP, A64_ADRP => true
                         | _, _ => false end) then Some y else layout_of t r
   end.
+
+(* ---- asmjit/core/fixup.h as data (re-extracted by tools/c17_layouts.py): the enumerators of OffsetType in declaration order
+   (= the constructor order of OffsetModel.otype, which the model driver numbers 0..11) and the types listed by has_sign_bit() *)
+Definition expected_otype_order : list otype :=
+  [SignedOffset; UnsignedOffset; A64_ADR; A64_ADRP; T32_ADR; T32_BLX; T32_B; T32_BCond; A32_ADR; A32_U23;
+   A32_U23_0To3At0_4To7At8; A32_1To24At0_0At24].
+Definition expected_sign_types : list otype := [T32_ADR; A32_ADR; A32_U23; A32_U23_0To3At0_4To7At8].
+
+(* ---- asmjit/arm/armutils.h as data: template arguments <kNumBBits, kNumCDEFGHBits, kNumZeroBits> of is_fp16/32/64_imm8 and of
+   encode_fp64_to_imm8, the two constants of is_add_sub_imm (0xFFF, << 12) and the byte-mask constant of is_byte_mask_imm *)
+Definition expected_fp_params : list (Z * (Z * Z * Z)) := [(16, (3, 6, 6)); (32, (6, 6, 19)); (64, (9, 6, 48)); (64, (9, 6, 48))].
+Definition expected_arm_consts : list Z := [4095; 12; 72340172838076673].
+
+(* ---- every OffsetFormat the backends build (call sites of reset_to_simple_value / reset_to_imm_value), re-extracted per run ---- *)
+Definition expected_used_formats : list fmt :=
+  [ {| ty := SignedOffset; vsize := 1; bits := 8; shift := 0; discard := 0 |};
+    {| ty := SignedOffset; vsize := 2; bits := 16; shift := 0; discard := 0 |};
+    {| ty := SignedOffset; vsize := 4; bits := 14; shift := 5; discard := 2 |};
+    {| ty := SignedOffset; vsize := 4; bits := 19; shift := 5; discard := 2 |};
+    {| ty := SignedOffset; vsize := 4; bits := 26; shift := 0; discard := 2 |};
+    {| ty := SignedOffset; vsize := 4; bits := 32; shift := 0; discard := 0 |};
+    {| ty := SignedOffset; vsize := 8; bits := 64; shift := 0; discard := 0 |};
+    {| ty := UnsignedOffset; vsize := 1; bits := 8; shift := 0; discard := 0 |};
+    {| ty := UnsignedOffset; vsize := 2; bits := 16; shift := 0; discard := 0 |};
+    {| ty := UnsignedOffset; vsize := 4; bits := 32; shift := 0; discard := 0 |};
+    {| ty := UnsignedOffset; vsize := 8; bits := 64; shift := 0; discard := 0 |};
+    {| ty := A64_ADR; vsize := 4; bits := 21; shift := 5; discard := 0 |};
+    {| ty := A64_ADRP; vsize := 4; bits := 21; shift := 5; discard := 12 |} ].
+
+(* decidable form of the hypotheses of the round-trip theorems *)
+Definition fmt_supported (f : fmt) : bool :=
+  let contig := ((vsize f =? 1) || (vsize f =? 2) || (vsize f =? 4) || (vsize f =? 8)) && (0 <? bits f) && (0 <=? shift f) &&
+                (bits f + shift f <=? 8 * vsize f) && (0 <=? discard f) && (discard f <=? 31) in
+  match ty f with
+  | SignedOffset | UnsignedOffset => contig
+  | A64_ADR | A64_ADRP => (vsize f =? 4) && (bits f =? 21) && (shift f =? 5) && (0 <=? discard f) && (discard f <=? 31)
+  | _ => false
+  end.
+
+(* the numbering the model driver uses for OffsetType values on the wire: position in the (re-extracted) enumerator order *)
+Definition otype_of_index (i : Z) : option otype := if i <? 0 then None else nth_error expected_otype_order (Z.to_nat i).
+
+(* ---- the bit-field alias cases of a64assembler.cpp (BaseBfx / BaseBfi / BaseBfc / BaseBfm, LSL #imm of BaseShift) as DATA:
+   operand guards, the two field expressions and where they are added (bit 16 = immr, bit 10 = imms), re-extracted per run ---- *)
+Inductive bexpr := BA | BB                      (* first / second immediate operand (uint64) *)
+| BNegAnd (e : bexpr)                            (* Support::neg(uint32_t(e)) & (op_size - 1) *)
+| BPred (e : bexpr)                              (* uint32_t(e) - 1 *)
+| BAddPred (e1 e2 : bexpr)                       (* e1 + uint32_t(e2) - 1 *)
+| BSizePredMinus (e : bexpr).                    (* op_size - 1 - uint32_t(e) *)
+Inductive bguard := GGeSize (e : bexpr) | GEqZero (e : bexpr) | GGtSizeMinus (e1 e2 : bexpr) | GOrGeSize (e1 e2 : bexpr).
+Record bf_rule := { br_guards : list bguard; br_immr : bexpr; br_imms : bexpr; br_imms_lt_size : bool }.
+
+Fixpoint eval_bexpr (size a b : Z) (e : bexpr) : Z :=
+  match e with
+  | BA => a | BB => b
+  | BNegAnd x => Z.land ((2 ^ 32 - eval_bexpr size a b x mod 2 ^ 32) mod 2 ^ 32) (size - 1)
+  | BPred x => eval_bexpr size a b x - 1
+  | BAddPred x y => eval_bexpr size a b x + eval_bexpr size a b y - 1
+  | BSizePredMinus x => size - 1 - eval_bexpr size a b x
+  end.
+Definition eval_bguard (size a b : Z) (g : bguard) : bool :=
+  match g with
+  | GGeSize e => size <=? eval_bexpr size a b e
+  | GEqZero e => eval_bexpr size a b e =? 0
+  | GGtSizeMinus e1 e2 => size - eval_bexpr size a b e2 <? eval_bexpr size a b e1
+  | GOrGeSize e1 e2 => size <=? Z.lor (eval_bexpr size a b e1) (eval_bexpr size a b e2)
+  end.
+Definition eval_bf_rule (r : bf_rule) (size a b : Z) : option (Z * Z) :=
+  if existsb (eval_bguard size a b) (br_guards r) then None else
+  let s := eval_bexpr size a b (br_imms r) in
+  if br_imms_lt_size r && (size <=? s) then None else Some (eval_bexpr size a b (br_immr r), s).
+
+Definition lw_guards : list bguard := [GGeSize BA; GEqZero BB; GGtSizeMinus BB BA].
+Definition expected_bf_rules : list bf_rule :=     (* BaseBfc; BaseBfi; BaseBfm; BaseBfx; LSL #imm *)
+  [ {| br_guards := lw_guards; br_immr := BNegAnd BA; br_imms := BPred BB; br_imms_lt_size := false |};
+    {| br_guards := lw_guards; br_immr := BNegAnd BA; br_imms := BPred BB; br_imms_lt_size := false |};
+    {| br_guards := [GOrGeSize BA BB]; br_immr := BA; br_imms := BB; br_imms_lt_size := false |};
+    {| br_guards := lw_guards; br_immr := BA; br_imms := BAddPred BA BB; br_imms_lt_size := true |};
+    {| br_guards := [GGeSize BA]; br_immr := BNegAnd BA; br_imms := BSizePredMinus BA; br_imms_lt_size := false |} ].
